@@ -11,31 +11,17 @@ use std::{mem::forget, time::Duration};
 const NOW: u64 = 1000;
 const CLEAN: u64 = ((Condition::NoError as u64) << 8) | ((DeliveryCode::Complete as u64) << 4) | FileStatusCode::Retained as u64;
 
-fn finalise_step(mode: TransmissionMode, n: usize, k: usize, via: u8) {
+fn finalise_step(mode: TransmissionMode, shape: u8, via: u8) {
+    let n = 4usize;
     let ch = chans();
     link_libc();
     verif::set_now(Duration::from_secs(NOW));
     let mut p = recv_parts(config(mode), NakProcedure::Deferred(Duration::ZERO), &ch);
     let cks = if kani::any() { ChecksumType::Modular } else { ChecksumType::Null };
-    let content: [u8; CAP] = kani::any();
-    let (s, b) = any_segments(k, n as u64);
-    let end = if k > 0 { b[2 * k - 1] as usize } else { 0 };
-    // the staged file: what was written so far (holes read as zero bytes: the content array is arbitrary there,
-    // which over-approximates a sparse file)
-    if k > 0 {
-        set_file(TMP, &content[..end]);
-        unsafe { TEMPS = 1 };
-        p.file_handle = Some(handle(TMP));
-    }
-    let mut held = 0;
-    let mut i = 0;
-    while i < k {
-        held += b[2 * i + 1] - b[2 * i];
-        i += 1;
-    }
-    p.saved_segments = s;
-    p.received_file_size = held;
-    p.nak_received_file_size = held;
+    let (b, k) = stage_shape(&mut p, shape);
+    // a longer, unrelated file already exists under the destination name (a stale file must not survive delivery)
+    let stale: [u8; CAP] = kani::any();
+    set_file(DST, &stale[..6]);
     p.timer.inactivity = counter(10, 2, NOW - 1, 0, false, false);
     let eof_cks: u32 = kani::any();
     let md = metadata(true, n as u64, false, cks, vec![]);
@@ -81,7 +67,7 @@ fn finalise_step(mode: TransmissionMode, n: usize, k: usize, via: u8) {
             j += 1;
         }
         assert!(opens(DST) == 1, "written once");
-    } else if opens(DST) > 0 {
+    } else if opens(DST) > 0 || writes(DST) > 0 {
         // a file may only appear under the destination name together with a non-clean report when the user asked
         // for checksum failures to be ignored (not configured here)
         assert!(false, "file exposed under the destination name without a clean delivery report");
@@ -92,13 +78,29 @@ fn finalise_step(mode: TransmissionMode, n: usize, k: usize, via: u8) {
     forget(t);
     forget(ch);
 }
-//# funcs=RecvTransaction::process_pdu(EoF),check_file_size,check_finished,has_naks,Segments::is_complete,finalize_receive,verify_checksum,FileChecksum::checksum,finalize_file; bound=acknowledged mode, 4-byte file, 1 held segment (any sub-range), staged content + EOF checksum symbolic, Modular/Null; stubs=S1,S2,S3,S5
-th!(c01_q_finalise_ack_eof_last, 14, { finalise_step(TransmissionMode::Acknowledged, 4, 1, 0) });
-//# funcs=RecvTransaction::process_pdu(Metadata),check_finished,finalize_receive,verify_checksum,finalize_file; bound=acknowledged mode, metadata arrives after EOF, 4-byte file, 1 held segment; stubs=S1,S2,S3,S5
-th!(c01_q_finalise_ack_metadata_last, 14, { finalise_step(TransmissionMode::Acknowledged, 4, 1, 1) });
-//# funcs=RecvTransaction::process_pdu(EoF) unacknowledged,finalize_receive,verify_checksum,finalize_file; bound=unacknowledged mode, 4-byte file, 1 held segment; stubs=S1,S2,S3,S5
-th!(c01_q_finalise_unack, 14, { finalise_step(TransmissionMode::Unacknowledged, 4, 1, 0) });
-//# funcs=RecvTransaction::process_pdu(EoF),check_finished,finalize_receive; bound=acknowledged mode, 5-byte file (length not a multiple of 4), 1 held segment; stubs=S1,S2,S3,S5
-th!(c01_t_finalise_ack_len5, 14, { finalise_step(TransmissionMode::Acknowledged, 5, 1, 0) });
-//# funcs=RecvTransaction::process_pdu(EoF),check_finished,finalize_receive; bound=acknowledged mode, 6-byte file, 2 held segments; stubs=S1,S2,S3,S5
-th!(c01_t_finalise_ack_k2, 14, { finalise_step(TransmissionMode::Acknowledged, 6, 2, 0) });
+//# funcs=RecvTransaction::process_pdu(EoF),check_file_size,check_finished,has_naks,Segments::is_complete,finalize_receive,verify_checksum,FileChecksum::checksum,finalize_file; bound=acknowledged mode, 4-byte file completely held, staged content + EOF checksum symbolic, Modular/Null; stubs=S1,S2,S3,S5
+th!(c01_q_finalise_ack_complete, 14, { finalise_step(TransmissionMode::Acknowledged, 1, 0) });
+//# funcs=RecvTransaction::process_pdu(EoF),check_finished,has_naks,Segments::is_complete; bound=acknowledged mode, head missing (held (2,4)); stubs=S1,S2,S3,S5
+th!(c01_q_finalise_ack_head_missing, 14, { finalise_step(TransmissionMode::Acknowledged, 3, 0) });
+//# funcs=RecvTransaction::process_pdu(EoF),check_finished; bound=acknowledged mode, tail missing (held (0,2)) / middle held (1,3) / two segments (0,1),(3,4) / nothing held; stubs=S1,S2,S3,S5
+th!(c01_q_finalise_ack_other_incomplete, 14, {
+    let s: u8 = kani::any();
+    kani::assume(s == 0 || s == 2 || s == 4 || s == 5);
+    if s == 0 {
+        finalise_step(TransmissionMode::Acknowledged, 0, 0)
+    } else if s == 2 {
+        finalise_step(TransmissionMode::Acknowledged, 2, 0)
+    } else if s == 4 {
+        finalise_step(TransmissionMode::Acknowledged, 4, 0)
+    } else {
+        finalise_step(TransmissionMode::Acknowledged, 5, 0)
+    }
+});
+//# funcs=RecvTransaction::process_pdu(Metadata),check_finished,finalize_receive,verify_checksum,finalize_file; bound=acknowledged mode, metadata arrives after EOF, file completely held; stubs=S1,S2,S3,S5
+th!(c01_q_finalise_ack_metadata_last, 14, { finalise_step(TransmissionMode::Acknowledged, 1, 1) });
+//# funcs=RecvTransaction::process_pdu(EoF) unacknowledged,finalize_receive,verify_checksum,finalize_file; bound=unacknowledged mode, file completely held; stubs=S1,S2,S3,S5
+th!(c01_q_finalise_unack_complete, 14, { finalise_step(TransmissionMode::Unacknowledged, 1, 0) });
+//# funcs=RecvTransaction::process_pdu(EoF) unacknowledged,finalize_receive; bound=unacknowledged mode, head missing (held (2,4)); stubs=S1,S2,S3,S5
+th!(c01_q_finalise_unack_head_missing, 14, { finalise_step(TransmissionMode::Unacknowledged, 3, 0) });
+//# funcs=RecvTransaction::process_pdu(Metadata),check_finished; bound=acknowledged mode, metadata last, head missing; stubs=S1,S2,S3,S5
+th!(c01_t_finalise_ack_metadata_last_head_missing, 14, { finalise_step(TransmissionMode::Acknowledged, 3, 1) });
